@@ -8,6 +8,36 @@
 mod model;
 mod world;
 
+/// Every freed heap block is overwritten with 0xDD before it goes back to the system allocator:
+/// a use-after-free in the code under test then reads deterministic garbage (wild pointers,
+/// impossible enum tags) instead of the stale but intact object, in the exploration and in the
+/// isolated re-execution alike.
+struct PoisonAlloc;
+
+unsafe impl std::alloc::GlobalAlloc for PoisonAlloc {
+    unsafe fn alloc(&self, l: std::alloc::Layout) -> *mut u8 {
+        unsafe { std::alloc::System.alloc(l) }
+    }
+
+    unsafe fn alloc_zeroed(&self, l: std::alloc::Layout) -> *mut u8 {
+        unsafe { std::alloc::System.alloc_zeroed(l) }
+    }
+
+    unsafe fn realloc(&self, p: *mut u8, l: std::alloc::Layout, n: usize) -> *mut u8 {
+        unsafe { std::alloc::System.realloc(p, l, n) }
+    }
+
+    unsafe fn dealloc(&self, p: *mut u8, l: std::alloc::Layout) {
+        unsafe {
+            std::ptr::write_bytes(p, 0xDD, l.size());
+            std::alloc::System.dealloc(p, l)
+        }
+    }
+}
+
+#[global_allocator]
+static ALLOC: PoisonAlloc = PoisonAlloc;
+
 use std::{
     sync::atomic::{AtomicBool, AtomicU64, Ordering},
     time::{Duration, Instant},
@@ -118,6 +148,13 @@ fn replay(path: &std::path::Path, grace: Duration) -> ! {
         .collect();
     let token_invisible = drivers().into_iter().any(|d| world::token_canary(d).is_some());
     println!("replay: driver={} scenario={} steps={:?}", driver_name(driver), sc.name, seq.iter().map(|s| s.name()).collect::<Vec<_>>());
+    // crash isolation: a use-after-free needs the allocator state of a long-running worker to bite;
+    // warm the heap with silent repetitions of the same execution first
+    let repeat: usize = std::env::var("C05_REPEAT").ok().and_then(|s| s.parse().ok()).unwrap_or(0);
+    for _ in 0..repeat {
+        let cfg = Config { driver, grace: Duration::ZERO, verbose: false, token_invisible };
+        let _ = run_one(sc, &seq, &cfg);
+    }
     let cfg = Config { driver, grace, verbose: true, token_invisible };
     let res = run_one(sc, &seq, &cfg);
     println!("replay: outcome {}", res.outcome);
@@ -187,7 +224,7 @@ fn items<'a>(scs: &'a [Scenario], pl: &Plan) -> (Vec<Item<'a>>, Vec<vcore::Value
             }
         }
         per_scenario.push(json!({"scenario": sc.name, "executions": n,
-            "ops": sc.ops.iter().map(|o| format!("{}@fd{}/tok{}", o.kind.name(), o.fd, o.tok)).collect::<Vec<_>>()}));
+            "ops": sc.ops.iter().map(|o| format!("{}@fd{}/{}", o.kind.name(), o.fd, o.tok_name())).collect::<Vec<_>>()}));
     }
     if let Ok(f) = std::env::var("C05_ONLY") {
         items.retain(|i| i.sc.name == f);
@@ -285,6 +322,7 @@ fn supervise(tier: Tier) -> ! {
                 .args(["C05", tier.name(), "--replay"])
                 .arg(&f)
                 .env("C05_CHILD", "1")
+                .env("C05_REPEAT", "40")
                 .stdout(std::process::Stdio::null())
                 .stderr(std::process::Stdio::null())
                 .status();
